@@ -3,7 +3,7 @@
 Everything is cached under /verif/build keyed by a content hash of every
 source file plus the flags, so a changed working tree always rebuilds.
 """
-import hashlib, os, subprocess, sys, shutil, json, glob, re, time
+import hashlib, os, subprocess, sys, shutil, json, glob, re, time, threading
 from concurrent.futures import ThreadPoolExecutor
 
 VERIF = os.path.dirname(os.path.dirname(os.path.abspath(__file__)))
@@ -96,17 +96,31 @@ def lib_sources(omit=()):
     return srcs
 
 
+_tmpctr = [0]
+_tmplock = threading.Lock()
+
+
 def compile_many(jobs):
-    """jobs: list of (cmd, outfile). Runs in parallel; raises on first failure."""
+    """jobs: list of (cmd without -o, outfile).  Compiles to a unique temporary and renames, so that
+    concurrent builders (threads or processes) never see a half-written object."""
     errs = []
 
     def run(j):
-        cmd, out = j
+        cmd, out = j[0], j[1]
         if os.path.isfile(out):
             return
-        rc, o = sh(cmd, check=False)
+        with _tmplock:
+            _tmpctr[0] += 1
+            tmp = "%s.%d.%d.tmp" % (out, os.getpid(), _tmpctr[0])
+        rc, o = sh(cmd + ["-o", tmp], check=False)
         if rc != 0:
             errs.append("FAILED: %s\n%s" % (" ".join(cmd), o[-3000:]))
+            try:
+                os.unlink(tmp)
+            except OSError:
+                pass
+        else:
+            os.rename(tmp, out)
 
     with ThreadPoolExecutor(JOBS) as ex:
         list(ex.map(run, jobs))
@@ -114,9 +128,65 @@ def compile_many(jobs):
         raise BuildError("\n".join(errs[:3]))
 
 
+_share_dep_cache = {}
+
+
+def share_dependent(cfg):
+    """Set of source basenames whose compilation can depend on the share numbers (transitively
+    include masked-config.h or config.h's share defines through a masking header)."""
+    key = tree_hash()
+    if key in _share_dep_cache:
+        return _share_dep_cache[key]
+    cache = os.path.join(BUILD, "sharedeps-" + key + ".json")
+    if os.path.isfile(cache):
+        r = set(json.load(open(cache)))
+        _share_dep_cache[key] = r
+        return r
+    inc = ["-I" + os.path.join(REPO, "src"), "-I" + os.path.join(REPO, "src", "ascon"), "-I" + cfg]
+    res = set()
+
+    def dep(sfile):
+        b = os.path.basename(sfile)
+        lang = ["-x", "assembler-with-cpp"] if b.endswith(".S") else []
+        cc = "g++" if b.endswith(".cpp") else "gcc"
+        rc, out = sh([cc, "-DHAVE_CONFIG_H", "-MM"] + inc + lang + [sfile], check=False)
+        if rc != 0 or "masked" in out or "masking" in out or "aead-masked" in out:
+            res.add(b)
+
+    tmp = os.path.join(BUILD, "sharedeps-tmp-%d" % os.getpid())
+    os.makedirs(tmp, exist_ok=True)
+    t = open(os.path.join(cfg, "config.h.tmpl")).read()
+    open(os.path.join(tmp, "config.h"), "w").write(t)
+    shutil.copy(os.path.join(cfg, "version.h"), os.path.join(tmp, "version.h"))
+    inc[-1] = "-I" + tmp
+    with ThreadPoolExecutor(JOBS) as ex:
+        list(ex.map(dep, lib_sources()))
+    shutil.rmtree(tmp, ignore_errors=True)
+    json.dump(sorted(res), open(cache, "w"))
+    _share_dep_cache[key] = res
+    return res
+
+
+def config_dir(cfg, triple):
+    d = os.path.join(BUILD, "inc-%s-k%dd%dm%d" % (os.path.basename(cfg), triple[0], triple[1], triple[2]))
+    if os.path.isfile(os.path.join(d, "ok")):
+        return d
+    os.makedirs(d, exist_ok=True)
+    t = open(os.path.join(cfg, "config.h.tmpl")).read()
+    t = re.sub(r"#define ASCON_MASKED_KEY_SHARES \d+", "#define ASCON_MASKED_KEY_SHARES %d" % triple[0], t)
+    t = re.sub(r"#define ASCON_MASKED_DATA_SHARES \d+", "#define ASCON_MASKED_DATA_SHARES %d" % triple[1], t)
+    t = re.sub(r"#define ASCON_MASKED_MAX_SHARES \d+", "#define ASCON_MASKED_MAX_SHARES %d" % triple[2], t)
+    open(os.path.join(d, "config.h"), "w").write(t)
+    shutil.copy(os.path.join(cfg, "version.h"), os.path.join(d, "version.h"))
+    open(os.path.join(d, "ok"), "w").write("ok")
+    return d
+
+
 def build_lib(backend="asm", triple=DEFAULT_TRIPLE, cc="gcc", opt="-O2", san=None, checker=False,
               omit=(), extra=(), no_stl=False, cxx=True, tag=""):
-    """Returns dict(lib=path to libascon.a, inc=[-I flags], dir=..., cflags=[...])."""
+    """Returns dict(lib=path to libascon.a, inc=[-I flags], dir=..., cflags=[...]).
+    Objects are cached individually; files that cannot depend on the share numbers are shared
+    between share triples (compiled against the default triple's config.h)."""
     cfg = cfg_dir()
     cxxc = {"gcc": "g++", "clang": "clang++"}[cc]
     flags = [opt, "-g", "-DHAVE_CONFIG_H", "-fno-omit-frame-pointer"] + BACKENDS[backend] + list(extra)
@@ -131,93 +201,104 @@ def build_lib(backend="asm", triple=DEFAULT_TRIPLE, cc="gcc", opt="-O2", san=Non
         "owntsan": ["-fsanitize=thread"],
     }[san]
     flags += sanflags
-    key = hashlib.sha256(json.dumps([tree_hash(), backend, triple, cc, opt, san, checker, sorted(omit),
-                                     list(extra), no_stl, cxx, tag, file_hash(os.path.join(cfg, "config.h.tmpl"))]).encode()).hexdigest()[:16]
+    th = tree_hash()
+    cfgh = file_hash(os.path.join(cfg, "config.h.tmpl"))
+    key = hashlib.sha256(json.dumps([th, backend, triple, cc, opt, san, checker, sorted(omit),
+                                     list(extra), no_stl, cxx, tag, cfgh]).encode()).hexdigest()[:16]
     d = os.path.join(BUILD, "lib-" + key)
     lib = os.path.join(d, "libascon.a")
-    inc = ["-I" + os.path.join(REPO, "src"), "-I" + os.path.join(REPO, "src", "ascon"), "-I" + d]
+    cdir = config_dir(cfg, triple)
+    inc = ["-I" + os.path.join(REPO, "src"), "-I" + os.path.join(REPO, "src", "ascon"), "-I" + cdir]
     res = dict(lib=lib, inc=inc, dir=d, cflags=flags, cc=cc, cxx=cxxc, sanflags=sanflags,
                desc="%s k%dd%dm%d %s %s%s%s" % (backend, triple[0], triple[1], triple[2], cc, opt,
                                                  " " + san if san else "", " checker" if checker else ""))
     if os.path.isfile(lib):
         return res
     shutil.rmtree(d, ignore_errors=True)
-    os.makedirs(d + "/o")
-    t = open(os.path.join(cfg, "config.h.tmpl")).read()
-    t = re.sub(r"#define ASCON_MASKED_KEY_SHARES \d+", "#define ASCON_MASKED_KEY_SHARES %d" % triple[0], t)
-    t = re.sub(r"#define ASCON_MASKED_DATA_SHARES \d+", "#define ASCON_MASKED_DATA_SHARES %d" % triple[1], t)
-    t = re.sub(r"#define ASCON_MASKED_MAX_SHARES \d+", "#define ASCON_MASKED_MAX_SHARES %d" % triple[2], t)
-    open(os.path.join(d, "config.h"), "w").write(t)
-    shutil.copy(os.path.join(cfg, "version.h"), os.path.join(d, "version.h"))
+    os.makedirs(d)
+    dep = share_dependent(cfg)
+    ddir = config_dir(cfg, DEFAULT_TRIPLE)
+    objroot = os.path.join(BUILD, "obj-" + th)
+    os.makedirs(objroot, exist_ok=True)
     jobs = []
     objs = []
     for s in lib_sources(omit):
         b = os.path.basename(s)
         if b.endswith(".cpp") and not cxx:
             continue
-        o = os.path.join(d, "o", b + ".o")
+        is_dep = b in dep
+        finc = inc if is_dep else inc[:2] + ["-I" + ddir]
+        okey = hashlib.sha256(json.dumps([b, flags, cc, triple if is_dep else None, cfgh]).encode()).hexdigest()[:20]
+        o = os.path.join(objroot, okey + "-" + b + ".o")
         objs.append(o)
         if b.endswith(".cpp"):
-            cmd = [cxxc, "-std=gnu++11"] + flags + inc + ["-c", s, "-o", o]
+            cmd = [cxxc, "-std=gnu++11"] + flags + finc + ["-c", s]
         elif b.endswith(".S"):
-            cmd = [cc] + flags + inc + ["-x", "assembler-with-cpp", "-c", s, "-o", o]
+            cmd = [cc] + flags + finc + ["-x", "assembler-with-cpp", "-c", s]
         else:
-            cmd = [cc, "-std=gnu99"] + flags + inc + ["-c", s, "-o", o]
+            cmd = [cc, "-std=gnu99"] + flags + finc + ["-c", s]
         jobs.append((cmd, o))
     compile_many(jobs)
-    tmp = lib + ".tmp"
+    with _tmplock:
+        _tmpctr[0] += 1
+        tmp = "%s.%d.%d.tmp" % (lib, os.getpid(), _tmpctr[0])
     sh(["ar", "rcs", tmp] + objs)
     os.rename(tmp, lib)
     return res
 
 
-def build_prog(name, sources, lib=None, cc=None, extra=(), link=(), objs=(), cxx=False, opt="-O1"):
+def build_prog(name, sources, lib=None, cc=None, extra=(), link=(), objs=(), cxx=False, opt="-O1", cfg_dep=False):
     """Compile harness sources (absolute or relative to /verif) and link against lib.
-    Returns path to executable.  Cached by content hash."""
+    Harness objects are cached by content; unless cfg_dep is set they are shared between library
+    configurations (public headers do not depend on the configuration).  Returns the executable."""
     cc = cc or (lib["cc"] if lib else "gcc")
     cxxc = {"gcc": "g++", "clang": "clang++"}[cc]
     srcs = [s if os.path.isabs(s) else os.path.join(VERIF, s) for s in sources]
-    h = hashlib.sha256()
-    deps = list(srcs)
+    hh = hashlib.sha256()
     for pat in ("harness/*.h", "ref/*.h", "harness/sched/*.h"):
-        deps += sorted(glob.glob(os.path.join(VERIF, pat)))
-    for s in deps + [o for o in objs]:
-        h.update(file_hash(s).encode())
-    h.update(json.dumps([name, cc, list(extra), list(link), lib["dir"] if lib else None, cxx, opt]).encode())
-    if lib:
-        h.update(file_hash(lib["lib"]).encode())
-    d = os.path.join(BUILD, "prog-" + h.hexdigest()[:16])
-    exe = os.path.join(d, name)
-    if os.path.isfile(exe):
-        return exe
-    shutil.rmtree(d, ignore_errors=True)
-    os.makedirs(d)
+        for f in sorted(glob.glob(os.path.join(VERIF, pat))):
+            hh.update(file_hash(f).encode())
+    hdrs = hh.hexdigest()
+    sanflags = list(lib["sanflags"]) if lib else []
+    th = tree_hash() if lib else ""
     inc = ["-I" + os.path.join(VERIF, "harness"), "-I" + os.path.join(VERIF, "ref")]
     if lib:
-        inc += lib["inc"]
-    sanflags = list(lib["sanflags"]) if lib else []
+        inc += lib["inc"] if cfg_dep else lib["inc"][:2] + ["-I" + config_dir(cfg_dir(), DEFAULT_TRIPLE)]
+    objroot = os.path.join(BUILD, "hobj")
+    os.makedirs(objroot, exist_ok=True)
     jobs = []
     os_ = []
     use_cxx = cxx
     for s in srcs:
-        o = os.path.join(d, os.path.basename(s) + ".o")
+        iscpp = s.endswith(".cpp") or s.endswith(".cc")
+        use_cxx = use_cxx or iscpp
+        okey = hashlib.sha256(json.dumps([file_hash(s), hdrs, cc, opt, sanflags, list(extra), th,
+                                          lib["dir"] if (lib and cfg_dep) else None,
+                                          lib["cflags"] if (lib and cfg_dep) else None]).encode()).hexdigest()[:20]
+        o = os.path.join(objroot, okey + "-" + os.path.basename(s) + ".o")
         os_.append(o)
-        if s.endswith(".cpp") or s.endswith(".cc"):
-            use_cxx = True
-            cmd = [cxxc, "-std=gnu++11", opt, "-g"] + sanflags + inc + list(extra) + ["-c", s, "-o", o]
-        else:
-            cmd = [cc, "-std=gnu99", opt, "-g"] + sanflags + inc + list(extra) + ["-c", s, "-o", o]
+        pre = [cxxc, "-std=gnu++11"] if iscpp else [cc, "-std=gnu99"]
+        cmd = pre + [opt, "-g"] + sanflags + inc + list(extra) + ["-c", s]
         jobs.append((cmd, o))
+    h = hashlib.sha256()
+    h.update(json.dumps([name, os_, list(link), [file_hash(o) for o in objs], use_cxx]).encode())
+    if lib:
+        h.update(lib["dir"].encode())
+    d = os.path.join(BUILD, "prog-" + h.hexdigest()[:16])
+    exe = os.path.join(d, name)
+    if os.path.isfile(exe) and (not lib or os.path.getmtime(exe) >= os.path.getmtime(lib["lib"])):
+        return exe
     compile_many(jobs)
-    ld = [cxxc if use_cxx else cc] + sanflags + ["-o", exe + ".tmp"] + os_ + list(objs)
+    os.makedirs(d, exist_ok=True)
+    with _tmplock:
+        _tmpctr[0] += 1
+        tmpx = "%s.%d.%d.tmp" % (exe, os.getpid(), _tmpctr[0])
+    ld = [cxxc if use_cxx else cc] + sanflags + ["-o", tmpx] + os_ + list(objs)
     if lib:
         ld += [lib["lib"]]
     ld += list(link)
-    if lib and not use_cxx and cxx is not None:
-        # the library contains C++ objects; only pulled in when referenced
-        pass
     sh(ld)
-    os.rename(exe + ".tmp", exe)
+    os.rename(tmpx, exe)
     return exe
 
 
